@@ -859,5 +859,9 @@ for _p in ("C16", "C11"):
     PROPS[_p]["rules"] = PROPS[_p]["rules"] + [rules_mem.rule_handed_over_not_freed]
     PROPS[_p]["explanation"] += " (OWNXFER) a working pointer that a loop hands to a tree or atom group and the failure cleanup frees is cleared after the hand-over."
 
+for _p in ("C16", "C13"):
+    PROPS[_p]["rules"] = PROPS[_p]["rules"] + [rules_errors.rule_closed_stream_replaced]
+    PROPS[_p]["explanation"] += " (STREAMKEPT) the arm taken when closing a shared file record's stream fails gives the record a stream again before it leaves."
+
 NOT_APPLICABLE = {}
 
